@@ -214,6 +214,12 @@ def opCenterOfGravity : Op K := fun n a =>
 /-- floats: rho mu v → re -/
 def opReynolds : Op K := fun _ a => #[reynolds (at_ a 0) (at_ a 2) (at_ a 1)]
 
+/-- ints: n ; floats: the table columns alt T P rho a mu (n each), altitude, Mach_number → T P rho speed_of_sound mu v -/
+def opAtmosComp : Op K := fun n a =>
+  let m := n[0]!
+  let r := Akima.atmos m (vec a 0) (vec a m) (vec a (2*m)) (vec a (3*m)) (vec a (4*m)) (vec a (5*m)) (at_ a (6*m)) (at_ a (6*m+1))
+  #[r.1, r.2.1, r.2.2.1, r.2.2.2.1, r.2.2.2.2.1, r.2.2.2.2.2]
+
 /-- ints: ns, then (nx ny sym) per surface ; floats: per surface b_pts widths chords S_ref sec_forces ; cg[3] v rho S_ref_total
     → CM[3] M[3] -/
 def opMomentCoefficient : Op K := fun n a =>
@@ -951,6 +957,7 @@ def ops : List (String × Op K) := [
   ("Breguet", opBreguet),
   ("CenterOfGravity", opCenterOfGravity),
   ("Reynolds", opReynolds),
+  ("AtmosComp", opAtmosComp),
   ("MomentCoefficient", opMomentCoefficient),
   ("VonMisesTube", opVonMisesTube),
   ("VonMisesWingbox", opVonMisesWingbox),
